@@ -284,8 +284,9 @@ def r8(run, db):
         for f in bodies:
             n += 1
             run.saw(len(f.blocks), f)
-            good = [c for c in f.calls() if c.callee and re.search(want[nm], c.callee) and "ActorProperties" in c.callee]
-            bad = [c for c in f.calls() if c.callee and re.search(other[nm], c.callee) and ("ActorProperties" in c.callee or "ActorCell" in c.callee)]
+            wrapper = {"kill_and_wait": r"ActorCell::kill$", "stop_and_wait": r"ActorCell::stop$", "drain_and_wait": r"ActorCell::drain$"}[nm]
+            good = [c for c in f.calls() if c.callee and ((re.search(want[nm], c.callee) and "ActorProperties" in c.callee) or re.search(wrapper, c.callee))]
+            bad = [c for c in f.calls() if c.callee and re.search(other[nm], c.callee) and ("ActorProperties" in c.callee or "ActorCell" in c.callee) and c not in good]
             run.check(bool(good) and f.must_pass(f.entry(), [c.site for c in good]), "%s|delivers-own-request" % nm, "%s issues its own request on every path" % nm,
                       "%s has a path that does not issue the request its name promises" % nm, f.where())
             run.check(not bad, "%s|no-foreign-request" % nm, "%s issues no other kind of request" % nm,
